@@ -48,6 +48,7 @@ def gen_session(rng):
     g = P.Gen(rng, ticks=False, max_depth=3)
     forms = g.toplevel(rng.randrange(3, 8))
     extra = ['(display "(")', '(display ")")', '(display "a;b")', "(display #\\()", "(display (list #\\) #\;))", '(display "x")(newline)',
+             '(display "ab\ncd")', '(list "(\n" 1)', '(if (string? "p\nq)") 5 0)', "(quote |x\ny|)", '(define ml "one\ntwo")',
              "'|a(b|", '"str(ing"', "(car '())", "(undefined-zz)", "(vector-ref (vector 1) 5)", "(+ 1 2) ; comment (", "(list 1 (quote (2 . 3)) #(4))"]
     for _ in range(rng.randrange(1, 5)):
         forms.insert(rng.randrange(len(forms) + 1), rng.choice(extra))
